@@ -491,7 +491,7 @@ Lemma ipv4_encode_decode_orig_refuted :
   exists h, ipv4_decode false false false ipv4_totlen_witness = Ok h /\
             ipv4_encode false h = Panic 121 /\
             ipv4_decode true true false ipv4_totlen_witness = Err E_TOTLEN.
-Proof. eexists. vm_compute. auto. Qed.
+Proof. exists (mk_ipv4 5 0 0 0 0 0 0 0 0 0 0). vm_compute. auto. Qed.
 (* with the code before the repair the clause holds exactly for total_length >= 20 *)
 Lemma ipv4_encode_decode_orig : forall fck ck bs h, bytes bs ->
   (ck = false \/ fck = false) ->
@@ -513,4 +513,7 @@ Qed.
 Lemma ipv4_encode_decode_ck_corner :
   exists h, ipv4_decode true true true ipv4_ffff_witness = Ok h /\
             ipv4_encode true h <> Ok (firstn 20 ipv4_ffff_witness).
-Proof. eexists. split; [vm_compute; reflexivity|]. vm_compute. discriminate. Qed.
+Proof.
+  exists (mk_ipv4 5 240 27855 49362 2783 1 163 205 0 3547720266 0).
+  split; [vm_compute; reflexivity|]. vm_compute. discriminate.
+Qed.
